@@ -20,8 +20,31 @@ from c03 import classify
 RESTRICTIONS = ["This feature is not implemented", "not supported"]
 
 
-def finding_key(case, cfg, msg):
+def _joins(x, out):
+    if isinstance(x, dict):
+        if x.get("op") == "join":
+            on = x["on"]
+            pure_eq = on.get("op") == "bin" and on.get("f") == "=" and on["l"].get("op") == "col" and on["r"].get("op") == "col"
+            out.append((x["jt"], not pure_eq))
+        for v in x.values():
+            _joins(v, out)
+    elif isinstance(x, list):
+        for v in x:
+            _joins(v, out)
+    return out
+
+
+def finding_key(case, cfg, msg, status=None):
     """Narrow keys of genuine engine defects (known_findings.json, property C02)."""
+    st = (cfg or {}).get("settings", {})
+    joins = _joins(case["plan"], [])
+    if st.get("datafusion.optimizer.enable_piecewise_merge_join") == "true" and "entered unreachable code" in (msg or ""):
+        return "enable_piecewise_merge_join=true:planner-panics-on-range-predicate-with-literal"
+    if st.get("datafusion.optimizer.prefer_hash_join") == "false":
+        if "declared as non-nullable but contains null values" in (msg or "") and any(jt in ("left", "right", "full") and flt for jt, flt in joins):
+            return "prefer_hash_join=false:smj-outer-join-with-filter-non-nullable-field"
+        if status == "diff" and any(jt == "full" and flt for jt, flt in joins):
+            return "prefer_hash_join=false:smj-full-join-null-filter-treated-as-match"
     return None
 
 
@@ -122,14 +145,14 @@ def run(ctx):
             st[f"{kind}:{s_}"] += 1
             b_ = base.get(d, ("notrun", None))[0]
             bad = None
-            if s_ == "diff" and (b_ == "ok" or cfg_id == 0 and kind != "run1"):
+            if s_ == "diff" and b_ == "ok":
                 bad = f"{kind} under configuration {cfg_id}: {m_}; the first run under the default configuration agrees with the reference"
             elif s_ == "error" and b_ == "ok" and not any(x in m_ for x in RESTRICTIONS):
                 bad = f"{kind} under configuration {cfg_id} fails ({m_[:300]}); the default configuration executes and agrees with the reference"
             elif s_ == "diff":
                 st["differs_like_default_configuration"] += 1
             if bad and raised < 15:
-                key = finding_key(c, cfg_by_id.get(cfg_id), m_ or "")
+                key = finding_key(c, cfg_by_id.get(cfg_id), m_ or "", s_)
                 raised += 0 if key else 1
                 report_violation(ctx, {"case": {k: v for k, v in c.items() if k != "cfg_objs"} | {"cfg_objs": [cfg_by_id[0], cfg_by_id[cfg_id]] if cfg_id else [cfg_by_id[0]]},
                                        "config": cfg_by_id.get(cfg_id), "db_index": d, "kind": kind, "engine": rec, "reference": views[d]["expect"],
